@@ -120,7 +120,7 @@ def run_contention(nprocs, rounds, hows):
 
 
 # ------------------------------------------------------------------ C13 ----
-SCENARIOS = ['blocking', 'timed', 'with', 'ctx', 'nested', 'contended', 'helper']
+SCENARIOS = ['blocking', 'timed', 'with', 'ctx', 'nested', 'contended', 'helper', 'failing']
 HANG_GUARD_S = 15.0     # wall-clock hang guard only; contenders need milliseconds
 
 
@@ -160,6 +160,30 @@ def _scenario(name, path, F):
         l.release()
         with l:
             pass
+    elif name == 'failing':
+        # every unsuccessful way out of acquire: non-blocking failure, timed-out acquire_ctx / with,
+        # and a second thread timing out on the object's in-process lock
+        import threading
+        other = F.FileLock(path)
+        other.acquire()
+        l = F.FileLock(path, timeout=0.01)
+        l.acquire(blocking=False)
+        try:
+            with l.acquire_ctx(timeout=0.01, poll_interval=0.005):
+                pass
+        except TimeoutError:
+            pass
+        try:
+            with l:
+                pass
+        except TimeoutError:
+            pass
+        other.release()
+        l.acquire()
+        t = threading.Thread(target=lambda: l.acquire(timeout=0.01))
+        t.start()
+        t.join()
+        l.release()
     elif name == 'contended':
         # another descriptor of this very process holds the lock for a while: the victim polls
         other = F.FileLock(path)
@@ -171,7 +195,28 @@ def _scenario(name, path, F):
             l.release()
 
 
-def count_events(name):
+def executable_lines():
+    """Line numbers of aiuti/filelock.py that belong to function bodies reachable on the Unix path
+    (everything except the Windows / unsupported lock classes and module-level code)."""
+    import dis
+    import aiuti.filelock as F
+    lines = set()
+    for cls in (F.BaseFileLock, F.UnixFileLock):
+        for name, fn in vars(cls).items():
+            fn = getattr(fn, 'fget', fn)
+            fn = getattr(fn, '__wrapped__', fn)
+            code = getattr(fn, '__code__', None)
+            if code is None:
+                continue
+            stack = [code]
+            while stack:
+                c = stack.pop()
+                lines.update(l for _, l in dis.findlinestarts(c) if l and l > c.co_firstlineno)
+                stack.extend(k for k in c.co_consts if hasattr(k, 'co_code'))
+    return lines
+
+
+def count_events(name, want_lines=False):
     """Number of line events of aiuti/filelock.py the scenario executes (counting run, in a child)."""
     r, w_ = os.pipe()
     pid = os.fork()
@@ -187,16 +232,21 @@ def count_events(name):
                 return lt
             return None
 
+        seen = set()
+
         def lt(frame, event, arg):
             if event == 'line':
                 n[0] += 1
+                seen.add(frame.f_lineno)
             return lt
+        import threading as _th
+        _th.settrace(tr)
         sys.settrace(tr)
         try:
             _scenario(name, os.path.join(d, 'lock'), F)
         finally:
             sys.settrace(None)
-        os.write(w_, str(n[0]).encode())
+        os.write(w_, (str(n[0]) + ' ' + ','.join(map(str, sorted(seen)))).encode())
         os._exit(0)
     os.close(w_)
     data = b''
@@ -207,7 +257,10 @@ def count_events(name):
         data += b
     os.close(r)
     os.waitpid(pid, 0)
-    return int(data or 0)
+    parts = (data.decode() or '0 ').split(' ')
+    if want_lines:
+        return int(parts[0]), {int(x) for x in parts[1].split(',') if x}
+    return int(parts[0])
 
 
 def crash_at(name, n, ncontenders=0, rounds=10):
@@ -256,6 +309,8 @@ def crash_at(name, n, ncontenders=0, rounds=10):
                         json.dump({'locked': any(l.is_locked for l in locks), 'func': fn, 'line': frame.f_lineno}, f)
                     os.kill(os.getpid(), signal.SIGKILL)
             return lt
+        import threading as _th
+        _th.settrace(tr)
         sys.settrace(tr)
         try:
             _scenario(name, path, F)
